@@ -168,6 +168,9 @@ func checkC14(c c14Case) (ci caseInfo, err error) {
 	}
 
 	got := msg.ToBytes()
+	// another control message is serialised while the first result is still held: results must not share storage
+	_ = ast.NewHSMSMessageLinktestReq([]byte{0xDE, 0xAD, 0xBE, 0xEF}).ToBytes()
+	_ = ast.NewHSMSMessageSeparateReq(0x5A5A, []byte{1, 2, 3, 4}).ToBytes()
 	if !bytes.Equal(got, want) {
 		return ci, fmt.Errorf("%s(session=%d ptype=%d stype=%d code=%d system=%x): bytes %x, want %x", c.Ctor, c.Session, c.PType, c.SType, c.Code, sys, got, want)
 	}
